@@ -9,7 +9,7 @@ ID = "C06"
 
 def plan(tier):
     shards = []
-    cap = 10 if tier == "quick" else 16
+    cap = 10 if tier == "quick" else 12
     for cube in sweep.arm_shards():
         op = (cube[1] >> 20) & 0xFF
         if tier == "quick":
